@@ -6,7 +6,7 @@ cd $WT || exit 2
 git checkout -q -- . ; git apply --check $OUT/patch.diff || { echo "PATCH DOES NOT APPLY"; exit 1; }
 echo "== demo on original"; (cd $OUT/demo && WT=$WT bash ./run.sh > /tmp/demo_orig.$ID.txt 2>&1; echo "demo exit (original): $?")
 git apply $OUT/patch.diff
-echo "== suite with the change"; /tmp/seedtools/build_and_test.sh $WT 2>&1 | tail -3
+echo "== suite with the change"; $(dirname "$0")/seedtools/build_and_test.sh $WT 2>&1 | tail -3
 echo "== demo with the change"; (cd $OUT/demo && WT=$WT bash ./run.sh > /tmp/demo_chg.$ID.txt 2>&1; echo "demo exit (changed): $?")
 git checkout -q -- .
 tail -5 /tmp/demo_orig.$ID.txt; echo ...; tail -8 /tmp/demo_chg.$ID.txt
